@@ -225,6 +225,12 @@ func mkValue(kind string) any {
 		return zhttp.Request(req)
 	case "env":
 		return zenv.NewDataProvider()
+	case "env-odd-values":
+		// (the variables stay set for the rest of the process: no other row reads these names with another meaning)
+		for k, v := range map[string]string{"name": "\"", "n": "'", "f": " \" ", "Name": "'", "N": "\"\"", "F": "'x", "NAME": "\"", longKey: "\""} {
+			os.Setenv(k, v)
+		}
+		return zenv.NewDataProvider()
 	}
 	panic("mkValue " + kind)
 }
